@@ -182,17 +182,17 @@ func (b *Bundle) Collision(kind string) {
 		use(b.Def("many"+k, jx.Obj{"description": b.lbl("mm"), "allOf": all}))
 		b.Place("codeResponse", jx.Obj{"type": "array", "description": b.lbl("mmt"), "items": tup}, "")
 	case "generatedNamesPresent":
-		// the input already holds definitions named like Flatten's own output, marker included (the output of an earlier run
-		// extended by hand): they are existing definitions
+		// the input already holds definitions named like Flatten's own output (the output of an earlier run extended by
+		// hand): they are existing definitions
 		op := b.Op(b.newPath(), "get", false)
 		id := "gen" + k
 		op["operationId"] = id
 		jx.AsObj(op["responses"])["200"] = jx.Obj{"description": b.lbl("g"), "schema": b.Obj()}
 		op["parameters"] = jx.Arr{jx.Obj{"name": "body", "in": "body", "schema": b.Obj()}}
 		for _, n := range []string{id + "OKBody", id + "ParamsBody"} {
-			d := b.Obj()
-			d["x-go-gen-location"] = "operations"
-			use(b.Def(n, d))
+			// (without Flatten's own x-go-gen-location marker: what happens to a marker that the input already carries
+			// is not something the statements speak about)
+			use(b.Def(n, b.Obj()))
 		}
 	case "prefixNamesRemoteRecursive":
 		// a root definition whose (mangled) name is a proper prefix of an imported recursive definition's, which is the
